@@ -494,6 +494,11 @@ func checkR01_3(w *World, r *Report, pools []*poolInfo) {
 		if !isPtr {
 			continue
 		}
+		if fn, isForeign := foreignResettable(elemPtr); isForeign {
+			nPools++
+			checkForeignBufferPool(w, r, p, fn)
+			continue
+		}
 		named, ok := elemPtr.Elem().(*types.Named)
 		st, isStruct := elemPtr.Elem().Underlying().(*types.Struct)
 		if !ok || !isStruct || named.Obj().Pkg() == nil || named.Obj().Pkg().Path() != twigPath {
@@ -1156,4 +1161,101 @@ func internTransparent(w *World, tname, path string) string {
 	}
 	sort.Strings(readers)
 	return "every reader (" + strings.Join(readers, ", ") + ") returns its argument or a value tested equal to it"
+}
+
+
+// foreignResettable: *T for a named type T of another package that has a Reset() method
+// (bytes.Buffer, strings.Builder, bufio.Writer …): the content of such an object is its state.
+func foreignResettable(pt *types.Pointer) (string, bool) {
+	named, ok := pt.Elem().(*types.Named)
+	if !ok || named.Obj().Pkg() == nil || named.Obj().Pkg().Path() == twigPath {
+		return "", false
+	}
+	ms := types.NewMethodSet(pt)
+	for i := 0; i < ms.Len(); i++ {
+		if ms.At(i).Obj().Name() == "Reset" {
+			if sig, ok := ms.At(i).Type().(*types.Signature); ok && sig.Params().Len() == 0 {
+				return named.Obj().Pkg().Name() + "." + named.Obj().Name(), true
+			}
+		}
+	}
+	return "", false
+}
+
+// checkForeignBufferPool — R01.3 for pools of library buffers: a buffer never travels from one
+// owner to the next with content.  Either every Get site resets the buffer before anything
+// else touches it, or every Put site is reached only with the buffer reset and untouched since.
+func checkForeignBufferPool(w *World, r *Report, p *poolInfo, tname string) {
+	isResetOf := func(in ssa.Instruction, v ssa.Value) bool {
+		c, ok := in.(ssa.CallInstruction)
+		if !ok {
+			return false
+		}
+		g := c.Common().StaticCallee()
+		if g == nil || g.Name() != "Reset" || len(c.Common().Args) != 1 {
+			return false
+		}
+		return sameValue(unspill(c.Common().Args[0]), unspill(v))
+	}
+	usesVal := func(in ssa.Instruction, v ssa.Value) bool {
+		for _, op := range in.Operands(nil) {
+			if op != nil && *op != nil && sameValue(unspill(*op), unspill(v)) {
+				return true
+			}
+		}
+		return false
+	}
+	getOK, getWhy := true, ""
+	for _, s := range p.gets {
+		if s.val == nil {
+			getOK, getWhy = false, ssaName(s.fn)+" uses the pooled object untyped"
+			continue
+		}
+		instrsOf(s.fn, func(in ssa.Instruction) {
+			if !getOK || in == ssa.Instruction(s.call) || !usesVal(in, s.val) || isResetOf(in, s.val) {
+				return
+			}
+			if _, isTA := in.(*ssa.TypeAssert); isTA {
+				return
+			}
+			if found, _ := existsPathFromAvoiding(s.fn, s.call, in, func(x ssa.Instruction) bool { return isResetOf(x, s.val) }, nil); found {
+				getOK, getWhy = false, ssaName(s.fn)+" uses the buffer at "+w.posOf(in.Pos())+" without having reset it"
+			}
+		})
+	}
+	for _, s := range p.puts {
+		construct := fmt.Sprintf("%s buffer is empty when it changes owner (%s)", tname, p.name)
+		if getOK {
+			r.ok("R01.3", ssaName(s.fn), construct, w.posOf(s.call.Pos()), "every Get site resets the buffer before its first use", true)
+			continue
+		}
+		fl := &boolFlow{fn: s.fn, entry: false}
+		v := s.val
+		fl.step = func(in ssa.Instruction, st bool) bool {
+			if isResetOf(in, v) {
+				return true
+			}
+			if in == ssa.Instruction(s.call) {
+				return st
+			}
+			if _, isMI := in.(*ssa.MakeInterface); isMI {
+				return st
+			}
+			if usesVal(in, v) {
+				if c, ok := in.(ssa.CallInstruction); ok {
+					if g := c.Common().StaticCallee(); g != nil && (g.Name() == "Len" || g.Name() == "Cap") {
+						return st
+					}
+				}
+				return false
+			}
+			return st
+		}
+		fl.solve()
+		if fl.at(s.call) {
+			r.ok("R01.3", ssaName(s.fn), construct, w.posOf(s.call.Pos()), "Reset on every path to the Put, untouched since", true)
+		} else {
+			r.bad("R01.3", ssaName(s.fn), construct, w.posOf(s.call.Pos()), "the buffer can be returned to the pool with content (no Reset on some path to this Put — an early error return, typically), and the acquiring side does not reset it either ("+getWhy+"): the next owner's output starts with what the previous one wrote before it failed")
+		}
+	}
 }
